@@ -37,6 +37,7 @@ def act? : Sexp → Option Act
   | .list [.atom "condFalse", b] => do pure (.condFalse (← b.bool?))
   | .list [.atom "condTrue"] => some .condTrue
   | .list [.atom "name", n, m, al] => do pure (.name (← chars? n) (← m.bool?) (← al.bool?))
+  | .list [.atom "nameL", n, m, al] => do pure (.nameL (← chars? n) (← m.bool?) (← al.bool?))
   | _ => none
 
 def kind? : Sexp → Option Kind
